@@ -861,9 +861,12 @@ theorem C15_visit_at_most_once (t : T) : (visit t).Nodup ∧ ∀ y ∈ visit t, 
   rw [visit_eq_dfs]
   exact ⟨(dfs_good t []).nodup, (dfs_good t []).only⟩
 
-/-- without sharing, `visit` yields every reachable parsed object exactly once, parents before
-    children and siblings left to right (`objIds` is that order by definition) -/
-theorem C15_visit_complete (t : T) (h : (objIds t).Nodup) : visit t = objIds t := by
+/-- without sharing (no identity of an object or of a container – list, tuple, dict – occurs
+    twice; `nodeIds` lists these identities), `visit` yields every reachable parsed object exactly
+    once, parents before children and siblings left to right (`objIds` is that order by
+    definition).  With sharing this fails by design: what lies below a container or object met
+    before is not walked again. -/
+theorem C15_visit_complete (t : T) (h : (nodeIds t).Nodup) : visit t = objIds t := by
   rw [visit_eq_dfs]
   exact dfs_complete t [] h (by simp)
 
@@ -891,6 +894,14 @@ def exT : T :=
               (2, .mk .list 9 [(0, .mk .obj 7 [(0, .mk .leaf 1 [])]), (1, .mk .leaf 1 [])])]
 example : visit exT = [5, 7] := by rfl
 example : (traverse exT).length = 14 := by rfl
+
+-- a shared container met twice: both fields of the root hold the same list (id 9) with one object
+-- (id 7); the list is expanded only where it is met first, the object is yielded once; here the
+-- list of reachable objects has a repetition and the hypothesis of `C15_visit_complete` fails
+def exShared : T :=
+  .mk .obj 5 [(0, .mk .list 9 [(0, .mk .obj 7 [])]), (1, .mk .list 9 [(0, .mk .obj 7 [])])]
+example : visit exShared = [5, 7] := by rfl
+example : objIds exShared = [5, 7, 7] ∧ nodeIds exShared = [5, 9, 7, 9, 7] := by decide
 
 end C15
 
